@@ -412,6 +412,7 @@ func (p *IGMPv3MembershipReport) UnmarshalBinary(data []byte) error {
 	n += 2
 	p.NumberOfGroups = binary.BigEndian.Uint16(data[n:])
 	n += 2
+	p.GroupRecords = nil
 	for i := uint16(0); i < p.NumberOfGroups; i++ {
 		gr := new(IGMPv3GroupRecord)
 		if err := gr.UnmarshalBinary(data[n:]); err != nil {
